@@ -35,6 +35,12 @@ between.  Every complete read of such a history is judged by the single-sequence
 that moment, and compared with the same read made by a bank object WITHOUT a past (a new MemoryBank declared from the
 same public declarations) against a copy of the unit: same commands on the bus, same result, same memory afterwards.
 
+Multi-byte values: besides random images, every value of two or more bytes (strings have their own text images) holds each
+of the bytes 0x00 0x01 0x7f 0x80 0xfe 0xff at EVERY one of its byte positions, with the other positions all zero, all
+0xff, or unremarkable bytes (harness.ref_memory.edge_raws; images ["edge", k]) - in single-value reads and in whole-bank
+reads: a rule that belongs to one byte of a value (0xFF = "not implemented" in a one-byte version number, a MASK byte)
+must not fire for another byte position.
+
 This module also holds what C10 (memory writes) shares: discovery, unit construction, the
 query-indexed fault bus.
 """
@@ -54,12 +60,14 @@ ID = "C09"
 LEVEL = "exploration"
 RULE = ("single value: (value class, addressing kind, image, last accessible location, hole set, initial lock byte, "
         "fault) tuples - complete over value x last location 0..254 and value x single hole for a static image, "
-        "fault at every read index, string values x each of the bytes 0x00 0x01 0x1f 0x20 0x7e 0x7f 0x80 0xff alone at every "
+        "fault at every read index, multi-byte values x each of the bytes 0x00 0x01 0x7f 0x80 0xfe 0xff at every byte position "
+        "between zeros / 0xff / unremarkable bytes (value read and whole-bank read), string values x each of the bytes 0x00 0x01 0x1f 0x20 0x7e 0x7f 0x80 0xff alone at every "
         "position of otherwise plain text (NUL also with bytes >= 0x80 behind it) and as the whole field, plus "
         "Hypothesis-generated tuples; whole bank: (bank object, addressing, image, last "
         "location 0..254, hole set, use_latch, drift, fault) tuples likewise; distinct by construction (enumeration) or by "
         "fingerprint (Hypothesis); non-trivial = at least one declared value is truncated by the last location or has a "
-        "hole, or a fault is injected, or (whole bank) the latch is set while live memory drifts; several sequences in "
+        "hole, or a fault is injected, or (whole bank) the latch is set while live memory drifts, or a multi-byte value holds a "
+        "byte-position boundary pattern; several sequences in "
         "flight: (2 or 3 single-value / whole-bank tuples as above - mostly of ONE bank object, units with different "
         "images, last locations, addressing - and the order in which the sequences advance command by command: "
         "round-robin, blocks, head starts, nested, late start, Hypothesis-drawn); non-trivial = the sequences really "
@@ -342,7 +350,7 @@ def prng(seed, n=NLOC):
 
 def make_image(spec, bankobj):
     """Image spec -> list of NLOC ints/None.  'ff' | '00' | 'ramp' | 'default' | ['prng', n] | ['hex', s] |
-    ['text', byte, pos[, tail]] (see text_image)"""
+    ['text', byte, pos[, tail]] (see text_image) | ['edge', k] (see edge_image)"""
     if spec == "ff":
         return [0xFF] * NLOC
     if spec == "00":
@@ -361,6 +369,8 @@ def make_image(spec, bankobj):
         return list((b + bytes(NLOC))[:NLOC])
     if spec[0] == "text":
         return text_image(bankobj, *spec[1:])
+    if spec[0] == "edge":
+        return edge_image(bankobj, *spec[1:])
     raise ValueError("image spec %r" % (spec,))
 
 
@@ -396,6 +406,31 @@ def text_image(bankobj, byte, pos, tail="ascii"):
                 raise ValueError("text image tail %r" % (tail,))
         for a, b in zip(locs, field):
             img[a] = b
+    return img
+
+
+def edge_rows(bankobj):
+    """The multi-byte values of a bank that are not strings (strings have the text images)."""
+    return sorted((r for r in all_rows().values() if r["bankobj"] == bankobj and r["width"] > 1 and r["kind"] != "string"),
+                  key=lambda r: r["first"])
+
+
+def edge_count(row):
+    return len(RM.edge_raws(row))
+
+
+def edge_image(bankobj, k):
+    """A pseudo-random image in which every multi-byte value of the bank (strings aside) holds the k-th of its
+    byte-position boundary patterns (harness.ref_memory.edge_raws: each of 0x00 0x01 0x7f 0x80 0xfe 0xff at every byte
+    position, between zeros, between 0xff and between unremarkable bytes; k counts modulo the number of patterns)."""
+    if not (isinstance(k, int) and not isinstance(k, bool) and k >= 0):
+        raise ValueError("edge image index %r" % (k,))
+    img = prng(8100 + k)
+    for r in edge_rows(bankobj):
+        pats = RM.edge_raws(r)
+        for a, b in zip(r["locs"], pats[k % len(pats)]):
+            if a < NLOC:
+                img[a] = b
     return img
 
 
@@ -1287,6 +1322,9 @@ def features(case):
     img = case.get("image")
     if isinstance(img, list) and img and img[0] == "text":
         f.append("string-image:" + ("nul" if img[1] == 0 else "0x%02x" % img[1] if img[1] in TEXT_BYTES else "other-byte"))
+    if isinstance(img, list) and img and img[0] == "edge" and (
+            case["kind"] != "value" or all_rows()[case["key"]] in edge_rows(all_rows()[case["key"]]["bankobj"])):
+        f.append("byte-position-edges")
     if case["kind"] == "value":
         row = all_rows()[case["key"]]
         last = case["last"] if case["last"] is not None else 0xFE
@@ -1318,7 +1356,7 @@ def features(case):
 
 
 NONTRIVIAL = ("truncated", "holed", "latch+drift", "fault:silence", "fault:garble", "history:read-with-a-past",
-              "history:judged-query")
+              "history:judged-query", "byte-position-edges")
 
 
 def is_nontrivial(case):
@@ -1404,6 +1442,12 @@ def _shard_values(arg):
                         k = (pos if pos != "all" else 1) + b + ti + ki + seed
                         run(_value_case(key, ADDRS[k % 3], short, ["text", b, pos, tail], 0xFE, lock=LOCKS[k % 3]),
                             "value:string-image")
+        # multi-byte values: every edge byte at every byte position, between zeros / 0xff / unremarkable bytes
+        if row in edge_rows(row["bankobj"]):
+            for k in range(edge_count(row)):
+                j = k + ki + seed
+                run(_value_case(key, ADDRS[j % 3], short, ["edge", k], 0xFE if j % 4 else max(locs), lock=LOCKS[j % 3]),
+                    "value:byte-position-edges")
         # one fault at each read index, with and without a hole behind it
         for q in range(len(locs) + 1):
             for kind in ("silence", "garble"):
@@ -1457,6 +1501,11 @@ def _shard_banks(arg):
                 b = TEXT_BYTES[(pos + seed) % len(TEXT_BYTES)]
                 run(_bank_case(bankobj, ADDRS[(pos + seed) % 3], short, ["text", b, pos, "high" if pos % 2 else "ascii"], top,
                                use_latch=bool(pos & 1)), "bank:string-image")
+        # every multi-byte value of the bank holds its k-th byte-position boundary pattern, for every k
+        for k in range(max([edge_count(r) for r in edge_rows(bankobj)] or [0])):
+            use_latch = bool((k + seed) & 1)
+            run(_bank_case(bankobj, ADDRS[(k + seed) % 3], short, ["edge", k], top, lock=LOCKS[k % len(LOCKS)],
+                           use_latch=use_latch, drift=use_latch and k % 4 < 2), "bank:byte-position-edges")
         # nothing but the header answers: every location from the first one read up to the last accessible one is
         # unimplemented (also with one location left that does answer)
         first = 3 if spec["has_lock_byte"] else 2
@@ -1714,7 +1763,8 @@ def image_st():
                      st.tuples(st.just("prng"), st.integers(0, 15)).map(list),
                      st.binary(min_size=NLOC, max_size=NLOC).map(lambda b: ["hex", b.hex()]),
                      st.tuples(st.just("text"), st.one_of(st.sampled_from(TEXT_BYTES), st.integers(0, 255)),
-                               st.one_of(st.integers(-3, 70), st.just("all")), st.sampled_from(["ascii", "high"])).map(list))
+                               st.one_of(st.integers(-3, 70), st.just("all")), st.sampled_from(["ascii", "high"])).map(list),
+                     st.tuples(st.just("edge"), st.integers(0, 400)).map(list))
 
 
 _SPELL_ST = st.one_of(st.none(), st.none(), st.sampled_from(SPELL_STYLES))
